@@ -161,6 +161,92 @@ def strip_ref(v):
     return v
 
 
+SHRINKERS = ('pop', 'remove', 'swap_remove', 'truncate', 'clear', 'retain', 'retain_mut', 'drain', 'split_off', 'set_len', 'dedup', 'dedup_by', 'dedup_by_key')
+
+
+def pushes_and_shrinks(prog, f, _depth=0):
+    """(fields pushed to on every path, fields possibly shrunk) of self's vectors by function f, as field-path suffixes"""
+    key = ('pushshrink', f.path)
+    if key in prog._summ_cache:
+        return prog._summ_cache[key]
+    prog._summ_cache[key] = (set(), {('*',)})          # recursion: assume the worst
+    b = f.body
+    must, may = set(), set()
+    for c in b.calls:
+        nm = c.callee_name()
+        vf = vec_field_of(prog, c.args[0]) if c.args else None
+        tgt = prog.resolve(c)
+        if tgt is None and vf is not None:
+            if nm == 'push' and all(r == c.point[0] or c.point[0] == 0 or not b.cfg.paths_avoiding(0, r, {c.point[0]}) for r in b.cfg.returns):
+                must.add(vf)
+            if nm in SHRINKERS:
+                may.add(vf)
+        elif tgt is not None and not tgt.is_closure and _depth < 4:
+            recv = prog.self_field(strip_ref(c.args[0])) if c.args else None
+            m2, y2 = pushes_and_shrinks(prog, tgt, _depth + 1)
+            pre = recv if recv is not None else (() if c.args and strip_ref(c.args[0]).kind == 'param' else None)
+            if pre is None:
+                if y2:
+                    may.add(('*',))
+                continue
+            if all(r == c.point[0] or c.point[0] == 0 or not b.cfg.paths_avoiding(0, r, {c.point[0]}) for r in b.cfg.returns):
+                must |= {pre + q for q in m2}
+            may |= {pre + q if q != ('*',) else q for q in y2}
+    prog._summ_cache[key] = (must, may)
+    return must, may
+
+
+def pushed_before(prog, fn, len_call, site):
+    """`v.len() - 1` is safe where a push onto v (direct, or through a crate function that pushes on all its paths) dominates the
+    site and nothing that can shrink v lies between the two"""
+    body = fn.body
+    cfg = body.cfg
+    P = vec_field_of(prog, len_call.args[0])
+    if P is None:
+        return None
+    pushers, shrinkers = [], []
+    for c in body.calls:
+        nm = c.callee_name()
+        tgt = prog.resolve(c)
+        if tgt is None:
+            vf = vec_field_of(prog, c.args[0]) if c.args else None
+            if vf == P and nm == 'push':
+                pushers.append(c)
+            if vf == P and nm in SHRINKERS:
+                shrinkers.append(c)
+        elif not tgt.is_closure and c.args:
+            recv = prog.self_field(strip_ref(c.args[0]))
+            if recv is None and strip_ref(c.args[0]).kind == 'param':
+                recv = ()
+            if recv is None:
+                continue
+            m2, y2 = pushes_and_shrinks(prog, tgt)
+            if any(recv + q == P for q in m2):
+                pushers.append(c)
+            if any(q == ('*',) or recv + q == P for q in y2):
+                shrinkers.append(c)
+    for pc in pushers:
+        if not (pc.point < len_call.point and cfg.dominates(pc.point[0], len_call.point[0])):
+            continue
+        # blocks between the push and the site
+        fwd, stack = set(), [pc.point[0]]
+        while stack:
+            x = stack.pop()
+            if x in fwd:
+                continue
+            fwd.add(x)
+            if x != len_call.point[0]:
+                stack.extend(cfg.succ[x])
+        bad = False
+        for sc in shrinkers:
+            if sc.point[0] in fwd and (sc.point[0] != pc.point[0] or sc.point > pc.point) and (sc.point[0] != len_call.point[0] or sc.point < len_call.point) \
+                    and (sc.point[0] == len_call.point[0] or cfg.paths_avoiding(sc.point[0], len_call.point[0], set()) or sc.point[0] == pc.point[0]):
+                bad = True
+        if not bad:
+            return 'len() - 1 of a vector that was pushed to on every path to this point, with nothing that shrinks it in between'
+    return None
+
+
 def auto_discharge(prog, fn, v, op, a, b):
     """reason string if the arithmetic site is discharged automatically"""
     body = fn.body
@@ -262,6 +348,10 @@ def auto_discharge(prog, fn, v, op, a, b):
                   and same_val(strip_ref(m.args[0]), strip_ref(sa.args[0])) and body.cfg.dominates(sb.point[0], m.point[0])]
         if not shrink:
             return 'length of a vector minus its own earlier length, with nothing that shrinks it in between'
+    if op == 'Sub' and sa.kind == 'call' and sa.callee_name() == 'len' and sb.is_const(1) and sa.args:
+        why = pushed_before(prog, fn, sa, v)
+        if why:
+            return why
     if op == 'Sub' and sa.kind == 'call' and sa.callee_name() == 'len':
         # len - n where n <= len guarded
         for (g, x, y) in guards:
